@@ -30,6 +30,39 @@ type c17Case struct {
 	// Lattice != nil: a counting chain on a predicate declared with a functional dependency and a
 	// merge predicate (facts are merged per key instead of added); Prog is unused.
 	Lattice *c17Lattice `json:"lattice,omitempty"`
+	// Opts: evaluation options that have nothing to do with the limit and must not change how it is reported:
+	// "now" (WithNowMarker), "temporal" (WithTemporalStore), "evaltime" (WithEvaluationTime), "deterministic" (WithDeterministicOrder)
+	Opts []string `json:"opts,omitempty"`
+}
+
+func c17EvalOptions(c c17Case) []engine.EvalOption {
+	out := []engine.EvalOption{engine.WithCreatedFactLimit(c.Limit)}
+	for _, o := range c.Opts {
+		switch o {
+		case "now":
+			out = append(out, engine.WithNowMarker())
+		case "temporal":
+			out = append(out, engine.WithTemporalStore(factstore.NewTemporalStore()))
+		case "evaltime":
+			out = append(out, engine.WithEvaluationTime(evalTime))
+		case "deterministic":
+			out = append(out, engine.WithDeterministicOrder())
+		}
+	}
+	return out
+}
+
+func c17RandOpts(r *rand.Rand) []string {
+	if r.Intn(4) > 0 {
+		return nil
+	}
+	var out []string
+	for _, o := range []string{"now", "temporal", "evaltime", "deterministic"} {
+		if r.Intn(2) == 0 {
+			out = append(out, o)
+		}
+	}
+	return out
 }
 
 type c17Lattice struct {
@@ -54,7 +87,7 @@ func (c17) Cases(tier string) int {
 func (c17) Describe() core.Info {
 	return core.Info{
 		Level: "exploration",
-		Rule: "typed random programs WITHOUT termination guards (unbounded fn:plus / fn:mult / fn:list:cons through recursion) mixed with terminating ones, base facts preloaded, evaluated with WithCreatedFactLimit(L), L in {1,2,5,20,100}, on every writable store kind behind a counting wrapper; every 10th case is a counting chain level(N,D) (guarded to 3..4000 keys or unguarded, one or two rules) on a predicate declared with fundep + merge (facts merged per key through a deferred lattice predicate), or the same chain without the declaration as control: one fresh key per round (or, in a third of them, one key whose value rises every round: an ascending chain in the lattice, a single stored fact replaced again and again), so only a limit on created facts can stop it; 0-3 further facts pad(i) are written in the program and in half of these cases L is exactly (or one more than) the number of facts written in the program, i.e. the budget is used up when the chain's stratum starts; a nil error there requires every level(n,n) up to the guard. Decided on logical steps: the wrapper aborts the run when successful Adds exceed B (or when Add was called more than 8B+200 times, successful or not: a run that keeps offering facts without the store growing does not return) = (rules+3)*(L+1)*(strata+1) (violation: unbounded creation); a nil error requires the store to equal the reference model, which is computed with a bound of (rules+3)*(L+1)+50 derived facts (reference larger => the engine must have returned an error, because its own per-join/per-round/per-store checks cap what an error-free run can create). Non-trivial: program diverges (reference exceeds its bound) or its number of derived facts is within +-3 of L; distinct by (program, L, store).",
+		Rule: "typed random programs WITHOUT termination guards (unbounded fn:plus / fn:mult / fn:list:cons through recursion) mixed with terminating ones, base facts preloaded, evaluated with WithCreatedFactLimit(L), L in {1,2,5,20,100} (a quarter of the cases add a random subset of the options that have nothing to do with the limit: WithNowMarker, WithTemporalStore, WithEvaluationTime, WithDeterministicOrder), on every writable store kind behind a counting wrapper; every 10th case is a counting chain level(N,D) (guarded to 3..4000 keys or unguarded, one or two rules) on a predicate declared with fundep + merge (facts merged per key through a deferred lattice predicate), or the same chain without the declaration as control: one fresh key per round (or, in a third of them, one key whose value rises every round: an ascending chain in the lattice, a single stored fact replaced again and again), so only a limit on created facts can stop it; 0-3 further facts pad(i) are written in the program and in half of these cases L is exactly (or one more than) the number of facts written in the program, i.e. the budget is used up when the chain's stratum starts; a nil error there requires every level(n,n) up to the guard. Decided on logical steps: the wrapper aborts the run when successful Adds exceed B (or when Add was called more than 8B+200 times, successful or not: a run that keeps offering facts without the store growing does not return) = (rules+3)*(L+1)*(strata+1) (violation: unbounded creation); a nil error requires the store to equal the reference model, which is computed with a bound of (rules+3)*(L+1)+50 derived facts (reference larger => the engine must have returned an error, because its own per-join/per-round/per-store checks cap what an error-free run can create). Non-trivial: program diverges (reference exceeds its bound) or its number of derived facts is within +-3 of L; distinct by (program, L, store).",
 		Assumptions: []string{"an error on a small terminating program is not judged (the property does not exclude it); it is counted", "B is derived from the per-join, per-round and per-store limit checks of the loop and is deliberately generous"},
 		PerCaseTimeout: 120e9,
 	}
@@ -76,7 +109,7 @@ func (c17) Gen(r *rand.Rand, tier string, i int) any {
 				{Head: gen.LitV{K: "atom", Pred: "p", Args: []gen.TermV{y}}, Body: []gen.LitV{{K: "atom", Pred: "p", Args: []gen.TermV{gen.VarT("X")}}, {K: "eq", L: &y, R: &fn}}},
 			},
 		}
-		return c17Case{Prog: p, Limit: []int{5, 20, 50, 100}[r.Intn(4)], Kind: engineStoreKinds[r.Intn(len(engineStoreKinds))], Text: progText(p)}
+		return c17Case{Prog: p, Limit: []int{5, 20, 50, 100}[r.Intn(4)], Kind: engineStoreKinds[r.Intn(len(engineStoreKinds))], Text: progText(p), Opts: c17RandOpts(r)}
 	}
 	if i%10 == 3 {
 		l := &c17Lattice{Chain: []int{0, 3, 10, 30, 150, 1000, 4000}[r.Intn(7)], TwoRules: r.Intn(2) == 0, Plain: r.Intn(5) == 0, Ascend: r.Intn(3) == 0, Pad: r.Intn(4)}
@@ -86,10 +119,11 @@ func (c17) Gen(r *rand.Rand, tier string, i int) any {
 			c.Limit = 1 + l.Pad + r.Intn(2)
 		}
 		c.Text = c17LatticeText(*l)
+		c.Opts = c17RandOpts(r)
 		return c
 	}
 	p := gen.RandProgram(r, o)
-	return c17Case{Prog: p, Limit: []int{1, 2, 5, 20, 100}[r.Intn(5)], Kind: engineStoreKinds[r.Intn(len(engineStoreKinds))], Text: progText(p)}
+	return c17Case{Prog: p, Limit: []int{1, 2, 5, 20, 100}[r.Intn(5)], Kind: engineStoreKinds[r.Intn(len(engineStoreKinds))], Text: progText(p), Opts: c17RandOpts(r)}
 }
 
 func (c17) Decode(raw json.RawMessage) (any, error) {
@@ -208,7 +242,7 @@ func c17ExecLattice(c c17Case, res *core.Result) (skip string, fail *evalFail) {
 				panic(r)
 			}
 		}()
-		evalErr = engine.EvalProgram(pi, countingRemoveStore{cs}, engine.WithCreatedFactLimit(c.Limit))
+		evalErr = engine.EvalProgram(pi, countingRemoveStore{cs}, c17EvalOptions(c)...)
 	}()
 	if res != nil {
 		res.Ob("evaluations", 1)
@@ -310,7 +344,7 @@ func c17Exec(c c17Case, res *core.Result) (skip string, fail *evalFail) {
 				panic(r)
 			}
 		}()
-		evalErr = engine.EvalProgram(pi, store, engine.WithCreatedFactLimit(c.Limit))
+		evalErr = engine.EvalProgram(pi, store, c17EvalOptions(c)...)
 	}()
 	if res != nil {
 		res.Ob("ms_engine", int(time.Since(t1).Milliseconds()))
@@ -381,7 +415,7 @@ func c17Exec(c c17Case, res *core.Result) (skip string, fail *evalFail) {
 func (c17) Run(cs any) core.Result {
 	c := cs.(c17Case)
 	var res core.Result
-	res.Key = core.HashKey(progText(c.Prog), c.Text, fmt.Sprint(c.Limit), c.Kind)
+	res.Key = core.HashKey(progText(c.Prog), c.Text, fmt.Sprint(c.Limit), c.Kind, fmt.Sprint(c.Opts))
 	res.Ob("limit:"+fmt.Sprint(c.Limit), 1)
 	skip, fail := c17Exec(c, &res)
 	if skip != "" {
